@@ -215,7 +215,7 @@ fn main() {
 	let mut check = Check::from_args(
 		"C10",
 		"exploration",
-		"2-4 in-memory sources, each with 1-3 tiles at coordinates of a 3x3 window (so that coordinates are shared by all, some or one source), each source with its own compression (none/gzip/brotli really applied) and stream implementation; tiles from the harness's own MVT model/encoder (written from the MVT 2.1 layout): 0-4 layers (0 layers = a tile of zero bytes) with names from a small pool (shared and disjoint between sources), own key/value tables with duplicate and unused entries in varying field order, values of all seven kinds (int vs sint, 64-bit borders, infinities, -0.0), features with/without id (0, 2^63, 2^64-1), geometry types 0-3, opaque geometry words, empty layers, extents/versions present/absent/differing; no NaN values, never +0.0 and -0.0 of one float kind in one case, never one key twice in a feature. Pipeline from_vectortiles_merged [ from_container..., ... ]. Oracle: declared compression is uncompressed; lookups at all 25 coordinates of the 5x5 box around the window: a tile exists iff some source has one; the bytes decode as a raw vector tile with the harness decoder; layer names (as a set, no name twice) = union over the source tiles; per layer the feature list (id, type, geometry words, property map resolved through the tables as written) = concatenation in source order; extent/version only compared for layers coming from a single source; layer order not compared; the stream over the box delivers exactly the same coordinates once each with content satisfying the same oracle. Non-trivial = at some coordinate a layer name occurs in >= 2 sources with different key or value tables. Distinct = distinct case value.",
+		"2-4 in-memory sources, each with 1-3 tiles at coordinates of a 3x3 window (so that coordinates are shared by all, some or one source), each source with its own compression (none/gzip/brotli really applied) and stream implementation; tiles from the harness's own MVT model/encoder (written from the MVT 2.1 layout): 0-4 layers (0 layers = a tile of zero bytes) with names from a small pool (shared and disjoint between sources), own key/value tables with duplicate and unused entries in varying field order, values of all seven kinds (int vs sint, 64-bit borders, infinities, -0.0), features with/without id (0, 2^63, 2^64-1), geometry types 0-3, opaque geometry words, empty layers, extents/versions present/absent/differing; NaN only as the quiet NaN of its kind, never +0.0 and -0.0 of one float kind in one case, never one key twice in a feature. Pipeline from_vectortiles_merged [ from_container..., ... ]. Oracle: declared compression is uncompressed; lookups at all 25 coordinates of the 5x5 box around the window: a tile exists iff some source has one; the bytes decode as a raw vector tile with the harness decoder; layer names (as a set, no name twice) = union over the source tiles; per layer the feature list (id, type, geometry words, property map resolved through the tables as written) = concatenation in source order; extent/version only compared for layers coming from a single source; layer order not compared; the stream over the box delivers exactly the same coordinates once each with content satisfying the same oracle. Non-trivial = at some coordinate a layer name occurs in >= 2 sources with different key or value tables. Distinct = distinct case value.",
 	);
 	check.assume("harness MVT codec (self-checked on every case: decode(encode(t)) == t); flate2/brotli as reference compressors");
 	vt::engine::watchdog(3600);
